@@ -402,6 +402,7 @@ func (g *Gen) node(depth int) *Node {
 			g.rewriteScenario(n)
 			g.pts(n)
 			n.DefOver = r.Fork(0xdef0).P(12)
+			n.ReqOver = r.Fork(0x0b71).P(25)
 			return n
 		case c < g.P.PStruct+g.P.PSlice+g.P.PPtr:
 			n := &Node{Kind: KPtr, Elem: g.node(depth + 1)}
@@ -642,6 +643,7 @@ func (g *Gen) schema0() *Node {
 			n.Elem = g.prim(Pick(g.R, g.P.Kinds))
 		}
 		g.req(n)
+		n.ReqOver = g.R.Fork(0x0b72).P(25)
 		g.tests(n)
 		g.rewriteScenario(n)
 		return n
